@@ -201,15 +201,30 @@ def drive_and_validate(prop, tier, seed, bins, workdir, shards, tlc_timeout):
     res = {"profiles": {}, "violations": [], "tool_errors": [], "events": 0, "execs": 0, "shards": 0,
            "trace_states": 0, "samples": [], "distinct": set(), "by_op": {}, "by_kind": {}}
     jobs = []
+    procs = {}
+    t0 = time.time()
     for prof, binpath in bins.items():
+        # the drivers of the two build profiles run concurrently
         d = os.path.join(workdir, prof)
         shutil.rmtree(d, ignore_errors=True)
         os.makedirs(d)
-        t0 = time.time()
         curfile = os.path.join(d, "current-case.json")
-        r = subprocess.run([binpath, "drive", prop, "--tier", tier, "--seed", str(seed), "--out", d, "--shards", str(shards)],
-                           stdout=subprocess.PIPE, stderr=subprocess.PIPE, text=True, timeout=3600,
-                           env=dict(os.environ, VERIF_CURRENT_FILE=curfile))
+        procs[prof] = (d, curfile, subprocess.Popen(
+            [binpath, "drive", prop, "--tier", tier, "--seed", str(seed), "--out", d, "--shards", str(shards)],
+            stdout=subprocess.PIPE, stderr=subprocess.PIPE, text=True, env=dict(os.environ, VERIF_CURRENT_FILE=curfile)))
+    for prof, (d, curfile, proc) in procs.items():
+        try:
+            so, se = proc.communicate(timeout=3600)
+        except subprocess.TimeoutExpired:
+            proc.kill()
+            so, se = proc.communicate()
+            res["tool_errors"].append("driver %s timed out" % prof)
+            continue
+
+        class R:
+            pass
+        r = R()
+        r.returncode, r.stdout, r.stderr = proc.returncode, so, se
         if r.returncode < 0 or r.returncode in (101, 134, 139):
             # the driver was killed (abort / stack overflow / signal) inside a call of the code under test
             try:
